@@ -32,6 +32,9 @@ def generate(rng, tier):
         else:
             P2 = P
             ma, mb = mag_pair(r, False)
+            if r.chance(0.25):
+                # a zero-length summand that still carries blade history (left, right or both)
+                ma, mb = r.choice([(0.0, mb), (ma, 0.0), (0.0, 0.0)])
             ra = rem_class(r); ba = blade_class(r, r.chance(0.5))
             # direction of b at least 1e-9 away from a and from a + pi
             off = r.choice([1e-9 * 3, 1e-6, 0.1, 0.7, 1.3, 2.0, 3.0, fb.PI - 1e-6, fb.PI + 1e-6, 4.0, 5.5, 2 * fb.PI - 1e-6])
@@ -41,6 +44,12 @@ def generate(rng, tier):
             s = P.add('GAdd', r.below(4), a, b); sw = P.add('GAdd', r.below(4), b, a)
             preds = [('add_general_blades', [a, b, s]), ('add_general_blades', [b, a, sw]), ('same_blade_rem', [s, sw]),
                      ('grade_from_direction', [a, b, s])]
+        if r.chance(0.2):
+            # running sum through a cancellation: (x + (-x)) keeps 2k+2 blades at zero length, then add c
+            x = canon_geonum(P, r, False, False); c = canon_geonum(P, r, False, False)
+            z = P.add('GAdd', r.below(4), x, P.add('GNeg', x))
+            zc = P.add('GAdd', r.below(4), z, c); cz = P.add('GAdd', r.below(4), c, z)
+            preds += [('add_general_or_fast', [z, c, zc]), ('add_general_or_fast', [c, z, cz]), ('same_blade_rem', [zc, cz])]
         cases.append(Case(P, preds, 'policy'))
     return cases
 
